@@ -351,6 +351,7 @@ def wire_checks(res):
         total_more_false = None
         inflight = set()
         window = None
+        proposed = None
         for f in res["frames"]:
             h = _e2e.decode_apdu_header(f[3])
             if not h:
@@ -361,6 +362,8 @@ def wire_checks(res):
                 body = bytes(h["body"])
                 if h["win"] < 1 or h["win"] > 127:
                     out.append(("window-range", "segment offers window %d" % h["win"]))
+                if proposed is None and seq == 0:
+                    proposed = h["win"]
                 # a NEW segment is one whose seq == (last_new+1) % 256
                 expected_new = 0 if last_new is None else (last_new + 1) % 256
                 idx_known = [i for i, (s, b_, m) in enumerate(order) if s == seq and b_ == body and m == h["mor"]]
@@ -382,7 +385,13 @@ def wire_checks(res):
                 # otherwise must be a retransmission identical to an earlier segment
                 if not idx_known:
                     out.append(("sequence", "sender %d emitted segment seq=%d (more=%s) that is neither the next one nor a retransmission" % (sender, seq, h["mor"])))
-            elif f[2] == str(sender) and h.get("type") == 4 and f[4] != "drop":
+            elif f[2] == str(sender) and h.get("type") == 4 and bool(h.get("srv")) == (ptype == 0):
+                # any segment ack (positive or negative, delivered or not) answers with a window: it may not
+                # exceed what this sender proposed in its first segment
+                if proposed is not None and not (1 <= h["win"] <= proposed):
+                    out.append(("window-granted", "a SegmentAck (nak=%s) toward sender %d carries window %d; the sender proposed %d" % (
+                        h.get("nak"), sender, h["win"], proposed)))
+            if f[2] == str(sender) and h.get("type") == 4 and f[4] != "drop":
                 # a segment ack reaching the sender: everything up to seq is acknowledged
                 window = h["win"]
                 ack = h["seq"]
